@@ -2,8 +2,8 @@ SPECIFICATION Spec
 CONSTANTS
   N = 3
   MaxDeliver = 3
-  MaxCrash = 2
-  Forks = FALSE
-  Gaps = TRUE
+  MaxCrash = 1
+  Forks = TRUE
+  Gaps = FALSE
 INVARIANTS InvHeadLinked InvIndex InvHeadState InvMarks InvExecuted InvWeightMonotone InvCrashHeadWeak
 CHECK_DEADLOCK FALSE
